@@ -825,3 +825,16 @@ Proof.
   - apply (dnf_nf (d_ke e) m t); [apply (wf_tne _ _ _ Hwf)|exact Ht|exact Hb].
   - apply (dec_ok_of_lim e _ t Htn Hlim).
 Qed.
+
+(* decode_canonical restricted to the image of the encoder: whatever the decoder returns on an
+   encoding re-encodes to exactly those bytes *)
+Theorem decode_canonical_on_encodings e m' t :
+  ksort_ok (d_ke e) -> ms_wf (d_ctx e) (d_ke e) m' ->
+  type_of m' = ROk t -> c_base (t_corr t) <> BW ->
+  lim_ok e (nf (d_ke e) m') -> gv (d_ctx e) (d_ke e) (nf (d_ke e) m') = None ->
+  forall m, decode_max e (encode (d_ke e) m') = OOk m -> encode (d_ke e) m = encode (d_ke e) m'.
+Proof.
+  intros Hs Hwf Ht Hb Hl Hg m Hd.
+  destruct (decode_enc e m' t Hs Hwf Ht Hb Hl Hg) as [Hdec [_ [Henc _]]].
+  rewrite Hdec in Hd. injection Hd as <-. exact Henc.
+Qed.
